@@ -69,6 +69,8 @@ def str_attr(I, v, name):
         if r is not NotImplementedVal:
             return r
     if isinstance(v, FmtStr):
+        if name == '__str__':
+            return Builtin('str.__str__', lambda I, a, k: v)
         raise Unsupported('method %s of a formatted string' % name)
     if isinstance(v, str):
         if name in ('isdigit', 'isalpha', 'isspace', 'isdecimal', 'isalnum', 'upper', 'lower', 'strip', 'lstrip',
@@ -119,4 +121,9 @@ def str_attr(I, v, name):
         return Builtin('str.' + name, f)
     if name == 'format':
         return Builtin('str.format', lambda I, a, k: FmtStr([('format', v, tuple(a), k)]))
+    if name == 'replace':
+        RA = z3.Function('ReplaceAll', z3.StringSort(), z3.StringSort(), z3.StringSort(), z3.StringSort())
+        return Builtin('str.replace', lambda I, a, k: RA(v, z3_of(a[0]), z3_of(a[1])))
+    if name == '__str__':
+        return Builtin('str.__str__', lambda I, a, k: v)
     raise Unsupported('str.%s on symbolic string' % name)
